@@ -3,8 +3,9 @@ CONSTANTS
   MaxEntries = 3
   Counts = {100, 101, 157, 5000}
   MaxReads = 4
+  WithIterFail = TRUE
 SPECIFICATION Spec
-INVARIANTS OffsetIsPrefix WholeAndBounded
+INVARIANTS OffsetIsPrefix WholeAndBounded FetchedCoversDelivered
 PROPERTIES Progress EmptyAtEnd
 VIEW View
 ACTION_CONSTRAINT Emit
